@@ -48,6 +48,11 @@ def run(tier, seed):
         p = fn(tier, seed)
         if p:
             traces.append((name, p))
+        # a producer may also report direct failures (e.g. the doctor losing rows or failing to re-ingest)
+        for idx, sig, detail, sc in getattr(fn, "failures", []):
+            v.violation("table/" + sig, dict(engine=name, scenario=sc, detail=detail))
+        for idx, text, sc in getattr(fn, "crashes", []):
+            v.violation("table/%s/crash" % name, dict(engine=name, scenario=sc, detail=text[-1500:]))
     total = bad = 0
     per = {}
     for name, path in traces:
@@ -97,6 +102,21 @@ def replay(path):
         side = os.path.join(vlib.sub("traces"), "one.side")
         # force the observation: scenario index 0 always observes ((0*7+3)%13 != 0) -> use --force-obs env
         out = vlib.replay("ingest", scen, nshards=1, side_path=side, env={"VERIF_FORCE_OBS": "1"})
+        files = ic.split_side(side, "one")
+        v = vlib.Verdict(PROP, "quick", doc.get("seed", 1))
+        v.known_defs = []
+        if "tableobs" in files:
+            ic.validate_table_trace(v, files["tableobs"][0])
+        if v.violations or out.failures or out.crashes:
+            print("VIOLATION property=%s replay=%s" % (PROP, path))
+            return 1
+        return 0
+    if "damage" in sc:
+        scen = os.path.join(vlib.sub("scn"), "one.ndjson")
+        with open(scen, "w") as f:
+            f.write(json.dumps(sc) + "\n")
+        side = os.path.join(vlib.sub("traces"), "one.side")
+        out = vlib.replay("doctor", scen, nshards=1, side_path=side)
         files = ic.split_side(side, "one")
         v = vlib.Verdict(PROP, "quick", doc.get("seed", 1))
         v.known_defs = []
